@@ -188,3 +188,46 @@ def odd_tagifiable_oracle(ck) -> int:
                                 py=f"class Menu(collections.abc.Sequence): ...  # __getitem__/__len__ over its items, tagify() -> <ul>\nTagList('p', Menu('a', 'b'), 'q').render()   # {ol}; {pl}")
     ck.exhaustive_scopes.append({"scope": "tagifiable objects that are also Sequence / iterable / dict instances: 4 kinds x 5 places, against an ordinary tagifiable object", "n": n, "exhaustive": True})
     return n
+
+
+def jsx_metadata_tagifiable_oracle(ck) -> int:
+    """inside a JSX component, an object with tagify() that is also a MetadataNode (a dependency that resolves itself when the
+    page is built) is expanded like any other tagifiable object: same script text, same dependencies as an ordinary object
+    with the same expansion — as a child, below a nested tag, below a nested component, and as a prop value"""
+    from htmltools import HTMLDependency, Tag, TagList
+    from htmltools._jsx import jsx_tag_create
+    n = 0
+
+    def expansion():
+        return Tag("b", "resolved", HTMLDependency("real", "2.0", head=Tag("meta", name="real")))
+
+    class LazyDep(HTMLDependency):
+        def tagify(self):
+            return expansion()
+
+    class Plain:
+        def tagify(self):
+            return expansion()
+
+    Foo, Bar = jsx_tag_create("Foo"), jsx_tag_create("Bar")
+    places = [("child", lambda w: Foo("a", w)), ("child of a nested tag", lambda w: Foo(Tag("div", w, "t"))),
+              ("child of a nested component", lambda w: Foo(Bar(w), "z")), ("prop value", lambda w: Foo(title=Tag("span", w))),
+              ("inside a plain tag tree around the component", lambda w: Tag("section", Foo(w)))]
+    for pl, place in places:
+        n += 1
+        ck.holds_checked += 1
+        try:
+            wr = TagList(place(Plain())).render()
+            want = (wr["html"], [(d.name, str(d.version)) for d in wr["dependencies"]])
+            gr = TagList(place(LazyDep("lazy", "1.0"))).render()
+            got = (gr["html"], [(d.name, str(d.version)) for d in gr["dependencies"]])
+        except Exception as e:  # noqa: BLE001
+            ck.py_violation(f"jsx_metadata_tagifiable {pl}", f"raised {type(e).__name__}: {e}", f"{pl}: raised", py=pl)
+            continue
+        if got != want:
+            ck.py_violation(f"jsx_metadata_tagifiable {pl}", str(got)[:400],
+                            f"a dependency subclass with tagify() as {pl} of a JSX component gives {str(got)[:300]!r}; an ordinary tagifiable object with the same "
+                            f"expansion gives {str(want)[:300]!r}",
+                            py=f"class LazyDep(HTMLDependency):\n    def tagify(self): return Tag('b', 'resolved', HTMLDependency('real', '2.0'))\n# {pl}")
+    ck.exhaustive_scopes.append({"scope": "a MetadataNode subclass with tagify() at 5 places of a JSX component, against an ordinary tagifiable object", "n": n, "exhaustive": True})
+    return n
